@@ -73,10 +73,10 @@ func lookupJobs(e *core.Env) []lookupJob {
 		// a seed-dependent stratified sample of both matrices
 		r := core.NewRNG(e.Seed, "c17.lookup.sample", 0)
 		off := r.Intn(1 << 20)
-		for k := 0; k < 230; k++ {
+		for k := 0; k < 260; k++ {
 			jobs = append(jobs, udpAll[(off+k*47)%len(udpAll)])
 		}
-		for k := 0; k < 130; k++ {
+		for k := 0; k < 160; k++ {
 			jobs = append(jobs, tcpAll[(off+k*31)%len(tcpAll)])
 		}
 	} else {
@@ -85,7 +85,7 @@ func lookupJobs(e *core.Env) []lookupJob {
 		jobs = append(jobs, tcpAll...)
 		jobs = append(jobs, tcpAll...)
 	}
-	for k := e.N(260, 3000); k > 0; k-- {
+	for k := e.N(300, 3000); k > 0; k-- {
 		jobs = append(jobs, lookupJob{mode: "seq"})
 	}
 	// directed: a truncated UDP answer with long TTLs, then a negative answer with a short SOA TTL over TCP
@@ -247,7 +247,7 @@ func runParser(e *core.Env) {
 	if !needFaketime(e) {
 		return
 	}
-	n := e.N(500, 100000)
+	n := e.N(800, 100000)
 	var w *world
 	var res resolverAPI
 	defer func() {
@@ -291,14 +291,13 @@ func parserCase(e *core.Env, w *world, res resolverAPI, ci int, r *core.RNG) {
 	both := r.Chance(1, 3)
 	victim := r.Intn(2)
 	for fi := 0; fi < 2; fi++ {
+		// the same reply on every resend (one message per family keeps the memory of GC-less ft children small)
+		it := g.item("valid", fam(fi))
+		if both || fi == victim {
+			it = fuzzItem(fam(fi))
+		}
 		for k := 0; k < 10; k++ {
-			if both || fi == victim {
-				sc.UDP[fi] = append(sc.UDP[fi], udpStep{Main: fuzzItem(fam(fi))})
-			} else {
-				// genuine, but marked as part of a fuzz exchange so that the lenient judgement applies to the whole lookup
-				it := g.item("valid", fam(fi))
-				sc.UDP[fi] = append(sc.UDP[fi], udpStep{Main: it})
-			}
+			sc.UDP[fi] = append(sc.UDP[fi], udpStep{Main: it})
 		}
 	}
 	for k := 0; k < 2; k++ {
